@@ -308,6 +308,11 @@ func (db *Backend) HeadObject(bucketName, objectName string) (*gofakes3.Object, 
 func (db *Backend) GetObject(bucketName, objectName string, rangeRequest *gofakes3.ObjectRangeRequest) (*gofakes3.Object, error) {
 	var t boltObject
 
+	if bytes.Equal([]byte(bucketName), db.metaBucketName) {
+		// (reachable without a BucketExists check through x-amz-copy-source)
+		return nil, gofakes3.BucketNotFound(bucketName)
+	}
+
 	err := db.bolt.View(func(tx *bolt.Tx) error {
 		b := tx.Bucket([]byte(bucketName))
 		if b == nil {
